@@ -268,6 +268,39 @@ def doc_calls(rng, lines, version, vlevel, tmpdir):
             pass
         return True
     calls.append(('lookups, removals, get/set/validate with hostile arguments', api))
+
+    VALID = {'sequence_gfa1': 'ACGT', 'sequence_gfa2': 'ACGT', 'position_gfa2': '1', 'position_gfa1': '0', 'integer': '3',
+             'alignment_gfa1': '2M', 'alignment_gfa2': '*', 'optional_integer': '*', 'oriented_identifier_gfa2': 'read9+',
+             'generic': 'zz', 'comment': 'c', 'orientation': '+', 'i': 7, 'Z': 'zz', 'f': 1.5, 'A': 'x', 'H': '0A', 'J': [1], 'B': [1, 2]}
+
+    def edit_then_remove():
+        # valid edits of the fields of connected lines (everything but the references), then every removal
+        G = add_all()
+        if stale_refs(G):
+            STALE_SEEN.append(True)
+            return True
+        for l in list(G.lines):
+            if l.record_type in ('H', '#') or l.virtual:
+                continue
+            fns = [fn for fn in l.positional_fieldnames if fn not in type(l).REFERENCE_FIELDS and fn != 'name'
+                   and fn != getattr(type(l), 'NAME_FIELD', None)] + list(l.tagnames)
+            for fn in rng.sample(fns, min(2, len(fns))):
+                dt = type(l).DATATYPE.get(fn) or l.get_datatype(fn)
+                if dt in VALID:
+                    try:
+                        l.set(fn, VALID[dt])
+                    except g.Error:
+                        pass
+        str(G)
+        for l in list(G.lines):
+            if l.record_type != 'H' and l.is_connected() and rng.random() < 0.7:
+                try:
+                    G.rm(l) if rng.random() < 0.5 else l.disconnect()
+                except g.Error:
+                    pass
+        str(G)
+        return True
+    calls.append(('valid edits of connected lines, then removals', edit_then_remove))
     return calls
 
 
